@@ -2,6 +2,7 @@
 package c02
 
 import (
+	"encoding/json"
 	"fmt"
 	"os"
 	"path/filepath"
@@ -22,34 +23,170 @@ import (
 
 type Case struct {
 	Project jgen.Project `json:"project"`
+	// CLI > 0: the model is read from the deps.json that `coca analysis` writes (cliSpellings[CLI-1]); 0: from JavaFullApp.AnalysisPath
+	CLI int `json:"cli,omitempty"`
+}
+
+// the shapes of the checklist audit (jgen/audit_c02.go) and the options of other audits that matter here
+func widened(o jgen.Opts) jgen.Opts {
+	o.ExoticNames, o.WildcardProjectImports, o.TwinNames, o.TwinReferrers = true, true, true, true
+	o.AnonBodies, o.AssignedCreations, o.CaseTwinNames, o.ScopeEnds, o.CallLayout, o.OwnTypeVars, o.ReturnCalls, o.FieldForms, o.InterfaceBodies, o.FieldChainCalls = true, true, true, true, true, true, true, true, true, true
+	return o
 }
 
 func gen(t *rapid.T) Case {
-	return Case{Project: jgen.GenProject(t, jgen.Opts{Bodies: true, MultiByte: true, Interfaces: true, MaxUnits: 4, MaxMethods: 4, Anon: true, Wide: true, RichDecl: true, Loops: true, SharedMethodNames: true, UnqualifiedForeign: true})}
+	p := jgen.GenProject(t, widened(jgen.Opts{Bodies: true, MultiByte: true, Interfaces: true, MaxUnits: 4, MaxMethods: 4, Anon: true, Wide: true, RichDecl: true, Loops: true, SharedMethodNames: true, UnqualifiedForeign: true}))
+	return Case{Project: fileForms(t, p)}
 }
 
 func genScoped(t *rapid.T) Case {
-	return Case{Project: jgen.GenProject(t, jgen.Opts{Bodies: true, ScopedReuse: true, MaxUnits: 3, MaxMethods: 4, Anon: true, Wide: true, RichDecl: true, Loops: true, SharedMethodNames: true, UnqualifiedForeign: true})}
+	p := jgen.GenProject(t, widened(jgen.Opts{Bodies: true, ScopedReuse: true, MaxUnits: 3, MaxMethods: 4, Anon: true, Wide: true, RichDecl: true, Loops: true, SharedMethodNames: true, UnqualifiedForeign: true}))
+	return Case{Project: fileForms(t, p)}
 }
 
-func check(c Case) pbt.Verdict {
+// the command line: the same projects, analysed by the binary, the model read from coca_reporter/deps.json
+func genCLI(t *rapid.T) Case {
+	c := gen(t)
+	c.CLI = 1 + rapid.IntRange(0, len(cliSpellings)-1).Draw(t, "cliSpelling")
+	return c
+}
+
+// cliSpellings are the ways to name the analysed directory DIR (the empty list: it is the working directory).
+var cliSpellings = [][]string{{"-p", "DIR"}, {"--path", "DIR"}, {"--path=DIR"}, {}, {"-i", "-p", "DIR"}, {"-p", "."}}
+
+// fileForms draws what a file may look like as a whole without any of its call sites moving: line ends
+// written CR LF, and the classes of one package living in the unnamed package (no package declaration)
+// when nothing outside refers to that package by name.
+func fileForms(t *rapid.T, p jgen.Project) jgen.Project {
+	pkgs := map[string]bool{}
+	for _, u := range p.Units {
+		pkgs[u.Pkg] = true
+	}
+	var cands []string
+	for pkg := range pkgs {
+		names := map[string]bool{}
+		for _, u := range p.Units {
+			if u.Pkg == pkg {
+				names[u.FullName()] = true
+			}
+		}
+		named := false
+		for _, u := range p.Units {
+			for _, im := range u.Imports {
+				if im.Text == pkg || names[im.Text] {
+					named = true
+				}
+				for n := range names {
+					if strings.HasPrefix(im.Text, n+".") {
+						named = true
+					}
+				}
+			}
+		}
+		if !named {
+			cands = append(cands, pkg)
+		}
+	}
+	sort.Strings(cands)
+	if len(cands) > 0 && rapid.IntRange(0, 7).Draw(t, "unnamedPackage") == 7 {
+		pkg := rapid.SampledFrom(cands).Draw(t, "unnamedPackageOf")
+		for i := range p.Units {
+			u := &p.Units[i]
+			if u.ExtendsFull != "" && strings.HasPrefix(u.ExtendsFull, pkg+".") && !strings.Contains(u.ExtendsFull[len(pkg)+1:], ".") {
+				u.ExtendsFull = u.ExtendsFull[len(pkg):]
+			}
+			for j := range u.Funcs {
+				for k := range u.Funcs[j].Events {
+					if e := &u.Funcs[j].Events[k]; e.Resolve && e.ExpPkg == pkg {
+						e.ExpPkg = ""
+					}
+				}
+			}
+			if u.Pkg == pkg {
+				// the line stays, so that nothing below it moves
+				p.Files[i].Text = strings.Replace(p.Files[i].Text, "package "+pkg+";", "", 1)
+				u.Pkg = ""
+				u.Features = append(u.Features, "unnamed_package")
+			}
+		}
+	}
+	for i := range p.Units {
+		if rapid.IntRange(0, 7).Draw(t, "crlf") == 7 {
+			p.Files[i].Text = strings.ReplaceAll(p.Files[i].Text, "\n", "\r\n")
+			p.Units[i].Features = append(p.Units[i].Features, "crlf_line_ends")
+		}
+	}
+	return p
+}
+
+// analyse runs the two passes in this process, or the binary, on the project written to a scratch directory.
+func analyse(c Case) ([]core_domain.CodeDataStruct, string) {
 	dir := cli.Scratch("c02-")
 	defer os.RemoveAll(dir)
+	proj := filepath.Join(dir, "proj")
 	files := map[string]string{}
 	for _, f := range c.Project.Files {
 		files[f.Path] = f.Text
 	}
-	cli.WriteTree(dir, files)
-	ast_java.VerifResetAstJava()
-	java_identify.VerifResetJavaIdentify()
+	if len(files) == 0 {
+		_ = os.MkdirAll(proj, 0755)
+	}
+	cli.WriteTree(proj, files)
 	var model []core_domain.CodeDataStruct
-	if p := pbt.Call(func() {
-		iapp := javaapp.NewJavaIdentifierApp()
-		ident := iapp.AnalysisPath(dir)
-		app := javaapp.NewJavaFullApp()
-		model = app.AnalysisPath(dir, ident)
-	}); p != "" {
-		return pbt.Fail("analysis panicked: %s", p)
+	if c.CLI == 0 {
+		ast_java.VerifResetAstJava()
+		java_identify.VerifResetJavaIdentify()
+		if p := pbt.Call(func() {
+			iapp := javaapp.NewJavaIdentifierApp()
+			ident := iapp.AnalysisPath(proj)
+			app := javaapp.NewJavaFullApp()
+			model = app.AnalysisPath(proj, ident)
+		}); p != "" {
+			return nil, fmt.Sprintf("analysis panicked: %s", p)
+		}
+		return model, ""
+	}
+	if c.CLI > len(cliSpellings) {
+		return nil, fmt.Sprintf("case names command-line spelling %d, there are %d", c.CLI, len(cliSpellings))
+	}
+	cwd := dir
+	args := []string{"analysis"}
+	shown := "coca analysis"
+	for _, a := range cliSpellings[c.CLI-1] {
+		args = append(args, strings.ReplaceAll(a, "DIR", proj))
+		shown += " " + a
+	}
+	if !strings.Contains(shown, "DIR") {
+		cwd = proj
+	}
+	res, err := cli.Run("coca", cwd, nil, args...)
+	if err != nil {
+		panic(err)
+	}
+	if res.ExitCode != 0 || res.TimedOut {
+		return nil, fmt.Sprintf("`%s` exited with %d (timeout=%v)\n%s", shown, res.ExitCode, res.TimedOut, tail(strings.ReplaceAll(res.Stdout+res.Stderr, dir, "")))
+	}
+	data, err := os.ReadFile(filepath.Join(cwd, "coca_reporter", "deps.json"))
+	if err != nil {
+		return nil, fmt.Sprintf("`%s` wrote no coca_reporter/deps.json", shown)
+	}
+	if err := json.Unmarshal(data, &model); err != nil {
+		return nil, fmt.Sprintf("the deps.json written by `%s` is not valid JSON: %v", shown, err)
+	}
+	return model, ""
+}
+
+func tail(s string) string {
+	if len(s) > 1500 {
+		return s[len(s)-1500:]
+	}
+	return s
+}
+
+func check(c Case) pbt.Verdict {
+	model, trouble := analyse(c)
+	if trouble != "" {
+		return pbt.Fail("%s", trouble)
 	}
 	byName := map[string]core_domain.CodeDataStruct{}
 	for _, ds := range model {
@@ -64,7 +201,13 @@ func check(c Case) pbt.Verdict {
 	shapes := map[string]bool{}
 	for i, u := range c.Project.Units {
 		for _, f := range u.Features {
+			if k := strings.Index(f, ":"); k >= 0 {
+				f = f[:k] // wildcard_only:<class>
+			}
 			shapes["shape_"+f] = true
+		}
+		for _, l := range unitLabels(c.Project, i) {
+			shapes[l] = true
 		}
 		ds, ok := byName[u.FullName()]
 		if !ok {
@@ -75,9 +218,12 @@ func check(c Case) pbt.Verdict {
 			var fn *core_domain.CodeFunction
 			for k := range ds.Functions {
 				if ds.Functions[k].Name == f.Name && ds.Functions[k].Position.StartLine == f.DeclLine {
-					// overloads may share a line: the start column of a class method or
-					// constructor is the column of its name
-					if fn == nil || ds.Functions[k].Position.StartLinePosition == f.NameCol {
+					// overloads may share a line: the start column of a class method or constructor is
+					// the column of its name, that of an interface method the column of the first token
+					// of its declaration, so the entry of f is the last one that starts at or before
+					// the name of f
+					c := ds.Functions[k].Position.StartLinePosition
+					if fn == nil || (c <= f.NameCol && (c > fn.Position.StartLinePosition || fn.Position.StartLinePosition > f.NameCol)) {
 						fn = &ds.Functions[k]
 					}
 				}
@@ -94,6 +240,14 @@ func check(c Case) pbt.Verdict {
 			where := fmt.Sprintf("%s: %s (line %d)", u.Path, f.Name, f.DeclLine)
 			if len(got) != len(f.Events) {
 				return pbt.Fail("%s: %d calls recorded, %d invocations/creations written\nrecorded: %s\nwritten:  %s\n%s", where, len(got), len(f.Events), renderCalls(got), renderEvents(f.Events), body(lines, f))
+			}
+			switch n := len(f.Events); {
+			case n >= 65:
+				shapes["function_with_65_or_more_call_sites"] = true
+			case n >= 33:
+				shapes["function_with_33_to_64_call_sites"] = true
+			case n >= 17:
+				shapes["function_with_17_to_32_call_sites"] = true
 			}
 			lastLine := -1
 			for k, e := range f.Events {
@@ -154,6 +308,9 @@ func check(c Case) pbt.Verdict {
 	if sameLine {
 		v.Classes = append(v.Classes, "two_invocations_on_one_line")
 	}
+	if c.CLI > 0 {
+		v.Classes = append(v.Classes, "cli_spelling_"+strings.TrimSpace("analysis "+strings.Join(cliSpellings[c.CLI-1], " ")))
+	}
 	if resolved > 0 {
 		v.Classes = append(v.Classes, "resolution_asserted")
 	}
@@ -165,9 +322,88 @@ func check(c Case) pbt.Verdict {
 // nameLabels classifies an invocation by what else its callee name denotes in the project: labels
 // only, computed from the generator's ground truth (nothing here is asserted).
 func nameLabels(p jgen.Project, ui int, f jgen.FuncTruth, e jgen.Event) []string {
+	u := p.Units[ui]
 	if e.Kind != "call" {
+		if !isASCII(e.Name) {
+			return []string{"created_type_with_non_ascii_letter"}
+		}
 		return nil
 	}
+	out := spellingLabels(e.Name)
+	if e.Resolve && e.Recv != "implicit" {
+		out = append(out, receiverTypeLabels(p, u, e)...)
+	}
+	return append(out, calleeLabels(p, ui, f, e)...)
+}
+
+func isASCII(s string) bool {
+	for _, r := range s {
+		if r > 127 {
+			return false
+		}
+	}
+	return true
+}
+
+func spellingLabels(callee string) []string {
+	var out []string
+	if !isASCII(callee) {
+		out = append(out, "callee_with_non_ascii_letter")
+	}
+	if strings.ContainsAny(callee, "$_") {
+		out = append(out, "callee_with_dollar_or_underscore")
+	}
+	return out
+}
+
+// receiverTypeLabels classifies the declared class of a field / parameter / local receiver.
+func receiverTypeLabels(p jgen.Project, u jgen.UnitTruth, e jgen.Event) []string {
+	var out []string
+	if e.ExpPkg == u.Pkg && e.ExpNode == u.Name {
+		out = append(out, "receiver_variable_of_the_enclosing_class")
+	} else if strings.EqualFold(e.ExpNode, u.Name) {
+		out = append(out, "receiver_class_named_like_the_enclosing_class_in_another_case")
+	}
+	for _, o := range p.Units {
+		if o.Name == e.ExpNode && o.Pkg != e.ExpPkg {
+			if e.ExpPkg == u.Pkg {
+				out = append(out, "receiver_class_of_the_own_package_has_a_namesake_in_another_package")
+			} else {
+				out = append(out, "receiver_class_imported_has_a_namesake_in_another_package")
+			}
+			break
+		}
+	}
+	for _, f := range u.Features {
+		if f == "wildcard_only:"+e.ExpPkg+"."+e.ExpNode {
+			out = append(out, "receiver_class_reached_through_an_on_demand_import_only")
+		}
+	}
+	if e.ExpPkg == "" {
+		out = append(out, "receiver_class_of_the_unnamed_package")
+	}
+	return out
+}
+
+// unitLabels classifies the names of the classes of the project as seen from unit ui.
+func unitLabels(p jgen.Project, ui int) []string {
+	var out []string
+	u := p.Units[ui]
+	for oi, o := range p.Units {
+		if oi == ui {
+			continue
+		}
+		switch {
+		case o.Name == u.Name:
+			out = append(out, "class_with_a_namesake_in_another_package")
+		case strings.EqualFold(o.Name, u.Name):
+			out = append(out, "class_named_like_another_one_in_another_case")
+		}
+	}
+	return out
+}
+
+func calleeLabels(p jgen.Project, ui int, f jgen.FuncTruth, e jgen.Event) []string {
 	u := p.Units[ui]
 	ownEarlier, ownLater, ownSelf := false, false, false
 	for _, g := range u.Funcs {
@@ -280,17 +516,25 @@ var _ = filepath.Join
 func init() {
 	pbt.SetProperty("C02")
 	jgen.SetExcluded(pbt.Excluded)
-	pbt.Describe("rapid-generated conventional Java projects (jgen, 1-4 units) whose method and constructor bodies hold 0-15 statements (local declarations, assignments, if/else, for, for-each, while, switch, try/catch/finally, return, expression statements) nested up to depth 3; enhanced for statements over project classes, primitives (int, long, char, double), arrays (int[], String[]), String / Object / Integer and List<String> elements, with or without `final`; classic for statements whose loop variable is an int or a local variable of a project class declared in the header (for (Node n = first; n != null; n = n.next()), called in the header and the body, and in the scoped_names sub-check possibly named like a field it shadows inside the loop only); bodies of if / else / for / for-each / while / do written as a block or as a single statement without braces on the same or the next line (a call, an assignment or another loop / branch, hence `else if` chains), with invocations of every receiver kind (implicit, this, field, this.field, parameter, local, for-each variable, static, chained, on a fresh object, lambda body), `new` expressions, several per line, arguments over several lines, any indentation (blanks or tabs), string literals and comments with multi-byte characters in front of call sites; method names may be shared between the classes of a project, so that the callee of an unqualified call (declared before the caller, after it, or the caller itself) may also be declared by a class the file imports, by a class of the same package, by the project superclass or an implemented interface, and the callee of a call on a variable may also be a method of the enclosing class; files may carry static imports of project classes (`import static pkg.P.*;`, also as a mere decoy next to own methods named like static methods of P, and `import static pkg.P.m;`) and unqualified calls of the static methods so imported and of methods inherited from the project superclass (receiver kinds staticimport and inherited). Oracle: the ordered list of (kind, name, line, column) recorded by the printer for each function; recorded calls must match it one to one in order, each recorded column range must select the callee identifier (in characters), creations must carry the created type, and for implicit / field / parameter / local receivers whose declared type is a plain project or imported class the recorded package and node must be that class. Non-trivial = >= 3 invocations of >= 2 receiver kinds in the project, or two invocations on one line; distinct = hash of the (kind, receiver kind, column) sequence.",
+	pbt.Describe("rapid-generated conventional Java projects (jgen, 1-4 units) whose method and constructor bodies hold 0-15 statements (local declarations, assignments, if/else, for, for-each, while, switch, try/catch/finally, return, expression statements) nested up to depth 3; enhanced for statements over project classes, primitives (int, long, char, double), arrays (int[], String[]), String / Object / Integer and List<String> elements, with or without `final`; classic for statements whose loop variable is an int or a local variable of a project class declared in the header (for (Node n = first; n != null; n = n.next()), called in the header and the body, and in the scoped_names sub-check possibly named like a field it shadows inside the loop only); bodies of if / else / for / for-each / while / do written as a block or as a single statement without braces on the same or the next line (a call, an assignment or another loop / branch, hence `else if` chains), with invocations of every receiver kind (implicit, this, field, this.field, parameter, local, for-each variable, static, chained, on a fresh object, lambda body), `new` expressions, several per line, arguments over several lines, any indentation (blanks or tabs), string literals and comments with multi-byte characters in front of call sites; method names may be shared between the classes of a project, so that the callee of an unqualified call (declared before the caller, after it, or the caller itself) may also be declared by a class the file imports, by a class of the same package, by the project superclass or an implemented interface, and the callee of a call on a variable may also be a method of the enclosing class; files may carry static imports of project classes (`import static pkg.P.*;`, also as a mere decoy next to own methods named like static methods of P, and `import static pkg.P.m;`) and unqualified calls of the static methods so imported and of methods inherited from the project superclass (receiver kinds staticimport and inherited). "+
+		"Widened by the checklist audit: method, variable and class names with `_`, `$` (not in class names) and letters outside ASCII, packages with digits and underscores; a class may be named like a class of another package in another case (Order7 / ORDER7) and refer to it; two classes may bear one simple name in two packages (referred to from the own package, or through a single-type import where the own package has no such class), a third class of the package of one of them referring to its package mate; a project class of another package may be reached through an on-demand import of its package only (or next to its single-type import), among unrelated on-demand imports; the classes of one package may live in the unnamed package (no package declaration) when nothing refers to that package by name; files may be written with CR LF line ends; a class may hold a field of its own type, hence parameters, locals, loop variables, creations and static calls of the enclosing class; fields of project classes may be annotated (@Autowired, @Resource(name = \"x\") on the same or the line before), static / transient, and declared two to a declaration; a local variable may be initialised with an object of another class than its declared one, and a field / parameter / local of class type may be assigned a fresh object of any project class (`x = new T();`, `this.x = new T();`), also right before a call on it; anonymous classes written as arguments have one or two methods, on one line or over several, with creations, local declarations with a call on them, and calls on the fields, parameters and locals of the enclosing method inside them (all of them call sites of the enclosing function); a group of a switch may declare a local variable of a project class, which ends with the switch; lambdas may have a parameter typed with a project class (`(Foo x) -> x.m()`); in the scoped_names sub-check both may be named like a field of another class, which is called right after the switch / lambda; a blank or a comment may stand between a callee or created type and its `(`, two blanks, a comment or a line end between `new` and the type; generic creations (`new ArrayList<>()`, `new ArrayList<String>(n)`); return statements that carry an invocation or creation and early returns at the end of nested blocks; default and static methods of interfaces with bodies; calls on a static field of a library class (System.out.println(..), System.err.printf(..), java.lang.System.out.println(..): receiver kind fieldchain, name/position/order only); functions with 17-64 call sites occur regularly. The cli sub-check runs the same projects through `coca analysis` (directory named by -p DIR, --path DIR, --path=DIR, -p ., the working directory, or next to -i) and reads the model from coca_reporter/deps.json. "+
+		"Oracle: the ordered list of (kind, name, line, column) recorded by the printer for each function; recorded calls must match it one to one in order, each recorded column range must select the callee identifier (in characters), creations must carry the created type, and for implicit / field / parameter / local receivers whose declared type is a plain project or imported class the recorded package and node must be that class. Non-trivial = >= 3 invocations of >= 2 receiver kinds in the project, or two invocations on one line; distinct = hash of the (kind, receiver kind, column) sequence.",
 		"variable names are unique per project, so that a receiver name denotes one declaration (name reuse across files is C07's domain)",
 		"resolution is asserted only for the receiver kinds the statement lists; this., for-each, lambda, static and chained receivers are checked for name/position/order only",
-		"array creations (`new int[3]`) are written but are not object creations and must not be recorded",
+		"array creations (`new int[3]`) are written but are not object creations and must not be recorded; arrays of classes (`new Foo[3]`, `new String[] {..}`) are not written: whether they count as creations of the element type is left open by the statement",
 		"a variable declared in the header of a classic for is a local variable (resolution asserted, class label recv_local_declared_in_forinit); the variable of an enhanced for keeps the receiver kind for-each (name/position/order only)",
 		"a statement without braces is never a declaration (Java forbids it)",
-		"unqualified calls of inherited and statically imported methods have no implicit receiver of the enclosing type in the statement's sense: name/position/order only. A method is imported with `import static pkg.P.m;`, or called through an on-demand static import, only when the class neither declares nor inherits from its project superclass a method of that name (which would hide the imported one) and no second static import brings the same name in (the call would be ambiguous)")
+		"unqualified calls of inherited and statically imported methods have no implicit receiver of the enclosing type in the statement's sense: name/position/order only. A method is imported with `import static pkg.P.m;`, or called through an on-demand static import, only when the class neither declares nor inherits from its project superclass a method of that name (which would hide the imported one) and no second static import brings the same name in (the call would be ambiguous)",
+		"the declared type of a variable is what a call on it is recorded against, whatever object it was initialised with or assigned (the statement speaks of the declared type)",
+		"a simple class name means what the language says it means in the file: the enclosing class itself, else the class of a single-type import, else the class of the own package, else the class of a package imported on demand; names are case-sensitive. A class with a namesake in another package is never reached through an on-demand import",
+		"the call sites inside the methods of an anonymous class written in a body are call sites of that body (as the plain anonymous classes of the first version already were); anonymous classes are not nested in one another and their methods take no parameters",
+		"not written, because the statement leaves their expected record open: explicit constructor calls `this(..)` / `super(..)`, method references, creations with a qualified type name (`new java.util.ArrayList<>()`, `new Outer.Inner()`), explicit type arguments on a call (`Util.<T>make()`), nested and several top-level types per file, initializer blocks; receivers declared after the method that uses them are outside the quantifier (\"declared at any earlier point\")")
 	pbt.Register("callsites", 400, 3000, gen, check)
 	// the same oracle on units whose methods reuse parameter / local names with different types
 	// and shadow fields: a receiver name denotes the declaration visible at the call site
 	pbt.Register("scoped_names", 300, 2000, genScoped, check)
+	// the same oracle on the deps.json that the command line writes
+	pbt.Register("cli", 60, 300, genCLI, check)
 }
 
 func TestProp(t *testing.T)   { pbt.Main(t) }
